@@ -383,7 +383,18 @@ impl Run {
     }
 
     /// Start a run: fresh world, proxy of the configured flavour instantiated from cfg. Emits the reset event.
-    pub fn start(cfg: &Value, run_no: u64, out: &mut Out) -> Option<Run> {
+    pub fn start(cfg0: &Value, run_no: u64, out: &mut Out) -> Option<Run> {
+        // a fixture run: the configuration the recorded state was produced with, plus the index of the state
+        let fx = cfg0.get("fixture").and_then(|x| x.as_u64()).and_then(|k| fixture("cw1", k as usize).map(|f| (k, f)));
+        let merged;
+        let cfg: &Value = if let Some((k, f)) = &fx {
+            let mut c = f["cfg"].clone();
+            c["fixture"] = json!(k);
+            merged = c;
+            &merged
+        } else {
+            cfg0
+        };
         let log2 = cfg.get("scale").and_then(|x| x.as_u64()).unwrap_or(0);
         let sc = Scale::new(1u128 << log2);
         let flavour = s(cfg, "flavour");
@@ -424,6 +435,16 @@ impl Run {
                 run.w.app.wasm_sudo(p, &RawOp::RawSet { key: Binary::from(b"admin_list".to_vec()), value: Binary::from(serde_json::to_vec(&l).unwrap()) }).unwrap();
                 run.w.names.insert("legacy_admin".into(), "legacy".into());
             }
+        }
+        if let Some((_, f)) = &fx {
+            if names_of(&run.w) != f["names"] {
+                eprintln!("fixtures/cw1.ndjson was recorded with other addresses: regenerate it (tools/mkfixtures.sh)");
+                std::process::exit(2);
+            }
+            let p = run.px();
+            load_raw(&mut run.w, &p, &f["raw"]);
+            run.w.set_clock(n(&f["now"], "h"), n(&f["now"], "t"));
+            cfgv["expect"] = f["obs"].clone();
         }
         let obs = run.observe();
         let anom = run.sc.take_anomalies();
@@ -718,8 +739,39 @@ fn rand_cfg(rng: &mut Rng) -> Value {
 }
 
 pub fn random_run(rng: &mut Rng, run_no: u64, len: usize, out: &mut Out) {
-    let cfg = rand_cfg(rng);
+    let nfx = fixture_count("cw1") as u64;
+    let cfg = if nfx > 0 && rng.chance(1, 6) { json!({"fixture": rng.below(nfx)}) } else { rand_cfg(rng) };
     let Some(mut run) = Run::start(&cfg, run_no, out) else { return };
+    if cfg.get("fixture").is_some() && run.flavour == "subkeys" && rng.chance(1, 2) {
+        run.step(&json!({"act":"migrate","by":"creator","args":{"x":0}}), out);
+    }
+    drive(&mut run, rng, len, out);
+}
+
+/// records states of the proxies as the current tree writes them (tools/mkfixtures.sh, unchanged tree only)
+pub fn make_fixtures(rng: &mut Rng, count: usize, len: usize, path: &str) {
+    let mut lines = String::new();
+    let mut sink = Out::create("/dev/null");
+    let mut k = 0;
+    while k < count {
+        let mut cfg = rand_cfg(rng);
+        cfg["ver"] = json!("cur");
+        cfg["oldadmin"] = json!(false);
+        let Some(mut run) = Run::start(&cfg, k as u64, &mut sink) else { continue };
+        drive(&mut run, rng, len, &mut sink);
+        let p = run.px();
+        let fx = json!({"cfg": cfg, "now": run.w.now(), "names": names_of(&run.w), "raw": dump_raw(&run.w, &p), "obs": run.observe()});
+        if !run.sc.take_anomalies().is_empty() {
+            continue;
+        }
+        lines.push_str(&serde_json::to_string(&fx).unwrap());
+        lines.push('\n');
+        k += 1;
+    }
+    std::fs::write(path, lines).unwrap();
+}
+
+fn drive(run: &mut Run, rng: &mut Rng, len: usize, out: &mut Out) {
     let top: i64 = if run.sc.max_amt() > 0 { run.sc.max_amt() } else { 1 << 28 };
     let mut obs = run.observe();
     let _ = run.sc.take_anomalies();
